@@ -950,7 +950,7 @@ impl<'a> WriteTxn<'a> {
         // 1) Append WAL and fsync (durability Full by default).
         {
             let mut wal = self.engine.wal.lock().unwrap();
-            wal.append(&WalRecord::BeginTx { txid: self.txid })?;
+            let tx_start = wal.append(&WalRecord::BeginTx { txid: self.txid })?;
 
             for (external_id, label_id, internal_id) in &self.created_nodes {
                 wal.append(&WalRecord::CreateNode {
@@ -1188,7 +1188,14 @@ impl<'a> WriteTxn<'a> {
             // Flush WAL
             // wal.append calls flush internally, we just need fsync at end of commit
             wal.append(&WalRecord::CommitTx { txid: self.txid })?;
-            wal.fsync()?;
+            if let Err(e) = wal.fsync() {
+                // The commit record is in the file but not durable, and nothing of the transaction
+                // has been applied in memory. Left in the log it would surface after a reopen, and
+                // the next transaction would log the same internal node ids a second time (replay
+                // then fails with "non-dense internal id"). Take the transaction out again.
+                let _ = wal.truncate_to(tx_start);
+                return Err(e);
+            }
         }
         #[cfg(nervusdb_verif)]
         crate::verif_sched::point("commit.after_wal");
